@@ -20,7 +20,7 @@ PLACEMENTS = [['A', 'B'], [['A', 'B']], [['A'], 'B'], ['A', ['B']], [['A'], ['B'
               [[['A'], ['B']]]]
 
 
-def connect_case(tree, st, dt, any_inputs, second_pair=False, cache=False, hier=0):
+def connect_case(tree, st, dt, any_inputs, second_pair=False, cache=False, hier=0, prior=False):
     """hier: 0 = flat entities; 1 / 2 = the connected entity 'e' is the second / first child of a parent entity whose other child
     is of another model type (X, whose only attribute is the name 'zz' that model M does not have)"""
     paths = paths_of(tree)
@@ -80,6 +80,9 @@ def connect_case(tree, st, dt, any_inputs, second_pair=False, cache=False, hier=
                             if hier:
                                 par = w.start('S', sim_id=it, typ=typ, any_inputs=(any_inputs and it == 'B'), hier=hier).M()
                                 ents[it] = [c for c in par.children if c.eid == 'e'][0]
+                            elif prior:
+                                two = w.start('S', sim_id=it, typ=typ, any_inputs=(any_inputs and it == 'B')).M.create(2)
+                                ents[it], ents[it + 'f'] = two[0], two[1]
                             else:
                                 ents[it] = w.start('S', sim_id=it, typ=typ, any_inputs=(any_inputs and it == 'B')).M()
                             ref.add_sim(it, paths[it], typ)
@@ -131,8 +134,14 @@ def connect_case(tree, st, dt, any_inputs, second_pair=False, cache=False, hier=
                 exp = [pair_reject(*p) for p in pairs]
                 from vk.tt import b_or, b_not
                 exp_any = b_or(*exp)
-                fp = [str(tree), st, dt, any_inputs, sa, da, weak, tsk, has_init, second_pair, hier]
-                desc = f'tree={tree} {st}->{dt} any_inputs={any_inputs} pair={sa}->{da} weak={weak} time_shifted={ts} initial={has_init} pairs={pairs}' + (f' hierarchical entities (variant {hier})' if hier else '')
+                fp = [str(tree), st, dt, any_inputs, sa, da, weak, tsk, has_init, second_pair, hier, prior]
+                desc = f'tree={tree} {st}->{dt} any_inputs={any_inputs} pair={sa}->{da} weak={weak} time_shifted={ts} initial={has_init} pairs={pairs}' + (f' hierarchical entities (variant {hier})' if hier else '') + (' after a plain connect of the same attribute pair between two other entities of the same models' if prior else '')
+                if prior and sa != 'zz' and (da != 'zz' or any_inputs):
+                    # the earlier, plain and valid connection of the same attribute pair between the f entities
+                    w.connect(ents['Af'], ents['Bf'], (sa, da))
+                    accepted_src.append(sa)
+                    ref.add_conn('A', 'f', sa, 'B', 'f', da, k=0, weak=False, initial=SENT, persistent=(sa == 'op' or st == T.TB), trigger=trig(da),
+                                 lenient=(not (sa == 'op' or st == T.TB) and not trig(da)))
                 try:
                     w.connect(ents['A'], ents['B'], *pairs, **kw)
                     outcome = 'accepted'
@@ -298,6 +307,13 @@ def jobs(tier):
                                         'harness': 'vk.kernels.c11:connect_case',
                                         'params': {'tree': tree, 'st': st, 'dt': dt, 'any_inputs': anyi, 'second_pair': second, 'cache': cache},
                                         'budget_s': 300})
+    # a history of two connect() calls: the same attribute pair connected plainly between other entities first
+    for ti, tree in enumerate(PLACEMENTS if not q else PLACEMENTS[:2] + PLACEMENTS[4:5]):
+        for st in types:
+            for dt in types:
+                for anyi in (False, True) if not q else (False,):
+                    out.append({'id': f'conn|t{ti}|{st}>{dt}|any={int(anyi)}|prior', 'harness': 'vk.kernels.c11:connect_case',
+                                'params': {'tree': tree, 'st': st, 'dt': dt, 'any_inputs': anyi, 'prior': True}, 'budget_s': 300})
     # the connected entities are children (of mixed model types) of a parent entity
     for ti, tree in enumerate(PLACEMENTS if not q else PLACEMENTS[:2] + PLACEMENTS[4:5]):
         for st in types:
